@@ -266,6 +266,9 @@ func (f *FeeQuote) UnmarshalJSON(body []byte) error {
 		if k != FeeTypeData && k != FeeTypeStandard {
 			return fmt.Errorf("%w '%s'", ErrUnknownFeeType, k)
 		}
+		if v == nil {
+			return fmt.Errorf("%w '%s'", ErrFeeTypeNotFound, k)
+		}
 		v.FeeType = k
 	}
 	f.mu.Lock()
